@@ -59,7 +59,11 @@ def expected_version(cfg):
 
 class Driver:
     def __init__(self):
-        self.bec = B2.Bec2File(sut.Bf3File(), [], SESSION)
+        # the file under test is built from the caller's (empty) component LIST, and a second, idle file from the very same list object:
+        # whatever the history does to the first file, the caller's list and the idle file stay as they were
+        self.callers_list = []
+        self.bec = B2.Bec2File(sut.Bf3File({}, self.callers_list), [], SESSION)
+        self.idle = sut.Bf3File({}, self.callers_list)
         self.m_comps = []          # model: list of ("fw", desc_items, blob) / ("cfg",)
         self.m_cfg = None          # most recent configuration (dict) or None
         self.m_extra = []
@@ -220,6 +224,9 @@ class Driver:
 
     def check_invariants(self):
         self._check_components()
+        if self.callers_list or self.idle.components:
+            raise Violation("the component list object the file was constructed from now has %d entries and an idle second file built from it %d components: the file edits its caller's list" % (
+                len(self.callers_list), len(self.idle.components)))
         want = dict(self.m_other)
         want.update(self.m_derived)
         if dict(self.f.comments) != want:
